@@ -1,5 +1,5 @@
 """Single source of truth for MANIFEST.json (bin/mkmanifest)."""
-HOOK_COMMITS = ["1948070"]
+HOOK_COMMITS = ["1948070", "0be6ff1"]
 NOTES = ("All checks: bin/check <id> quick|thorough.  Each run: srcfacts regenerates coq/Src from /repo, make re-checks the "
          "Coq development, the Go harness is rebuilt from /repo with -tags verif, cases are generated from VERIF_SEED, "
          "the implementation and the model are run on them and compared, the Coq specification predicate is evaluated on "
@@ -41,3 +41,14 @@ CHECKS.update({
  "C10": _ev("${imports.X} seen from arbitrary importers after all merges compared with X evaluated on its own (values and flags), plus "
             "model correspondence"),
 })
+
+CHECKS["C17"] = {
+ "text": "Coq theorems over a model of the shell renderer and a small POSIX semantics of `export NAME=word` scripts: the rendering of "
+         "every value without NUL under every valid name evaluates to exactly the intended exports (induction over the value and the "
+         "entry list), redacted renderings are independent of secret values; the quoting byte list and line format are read from "
+         "prepare.go by srcfacts; the real renderValue output is compared with the model and executed by /bin/sh, bash and mvdan.cc/sh; "
+         "sh_eval itself is validated against those shells on the same scripts",
+ "note": "Trusted: Coq kernel, srcfacts, correspondence harness, extraction; the POSIX fragment sh_eval is a hand-written specification "
+         "validated against dash/bash on every run; strconv.Quote modelled for 7-bit input only (dotenv compared on ASCII values)",
+ "technique": "machine-checked proof in Coq + model/implementation correspondence check",
+}
